@@ -316,6 +316,42 @@ func runSC(c *Ctx, s *Sink) {
 		return false
 	}
 	isCirc := func(cond ast.Expr) bool { return rootObj(info, cond) == circ }
+	// isEmptyTest: the condition only says that the sequence itself is empty (Len() == 0, through a local or not): no
+	// window is refused for its bounds there, there is nothing to take a window of
+	scDefs := collectDefs(info, fd)
+	isLen := func(e ast.Expr) bool {
+		e = ast.Unparen(e)
+		if id, ok := e.(*ast.Ident); ok {
+			ds := scDefs[info.ObjectOf(id)]
+			if len(ds) != 1 || ds[0] == nil {
+				return false
+			}
+			e = ast.Unparen(ds[0])
+		}
+		call, ok := e.(*ast.CallExpr)
+		if !ok {
+			return false
+		}
+		if f := callee(info, call); f != nil && f.Name() == "Len" && len(call.Args) == 0 {
+			return true
+		}
+		if id, ok := call.Fun.(*ast.Ident); ok && id.Name == "len" && info.Uses[id] == types.Universe.Lookup("len") {
+			return true
+		}
+		return false
+	}
+	isEmptyTest := func(cond ast.Expr) bool {
+		b, ok := ast.Unparen(cond).(*ast.BinaryExpr)
+		if !ok || !isLen(b.X) {
+			return false
+		}
+		tv, ok := info.Types[b.Y]
+		if !ok || tv.Value == nil {
+			return false
+		}
+		v := tv.Value.ExactString()
+		return (b.Op == token.EQL && v == "0") || (b.Op == token.LEQ && v == "0") || (b.Op == token.LSS && v == "1")
+	}
 	var bad []string
 	n := 0
 	var stack []ast.Node
@@ -348,7 +384,7 @@ func runSC(c *Ctx, s *Sink) {
 			}
 			inBody := k+1 < len(stack) && stack[k+1] == ast.Node(ifs.Body)
 			inElse := k+1 < len(stack) && ifs.Else != nil && stack[k+1] == ast.Node(ifs.Else)
-			if inBody && requiresLinear(ifs.Cond) {
+			if inBody && (requiresLinear(ifs.Cond) || isEmptyTest(ifs.Cond)) {
 				guarded = true
 			}
 			if inElse && isCirc(ast.Unparen(ifs.Cond)) {
@@ -363,6 +399,6 @@ func runSC(c *Ctx, s *Sink) {
 	if len(bad) > 0 {
 		s.Fail(nil, key, fd.Pos(), "an error is returned whatever the value of 'circular' at "+strings.Join(bad, ", ")+": a circular window that starts before the origin (from < 0) is refused, so the amplicon of a primer site lying at the very beginning of a circular template is lost (obipcr aborts) while the same site elsewhere on the circle is reported")
 	} else {
-		s.Pass(nil, key, fd.Pos(), fmt.Sprintf("%d error returns, each requiring !circular", n))
+		s.Pass(nil, key, fd.Pos(), fmt.Sprintf("%d error returns, each requiring !circular (or an empty sequence)", n))
 	}
 }
